@@ -22,7 +22,7 @@ func init() {
 	core.Register(&core.Check{
 		ID:    "C16",
 		Level: "translation_validation",
-		Rule:  "(1) random programs inside the compiler's supported subset (every statement feeds a global): final value of every top-level variable on the VM (verif hook, keyed by the compiler's symbol names, maps with key order) vs the evaluator's (repr trailer), or corresponding run-time error class; (2) programs that use one unsupported construct (typed declaration, any conversion, function definition/call, return, handler, field access, type assertion, and/or, built-in call): a compile-time error is required. distinct = distinct program texts",
+		Rule:  "(0) edge operands: one index / slice bound / store position (whole, almost whole, fractional) or one numeric range (zero, negative, fractional step; start before, at, after stop) per program, outcome class and globals compared; (1) random programs inside the compiler's supported subset (every statement feeds a global): final value of every top-level variable on the VM (verif hook, keyed by the compiler's symbol names, maps with key order) vs the evaluator's (repr trailer), or corresponding run-time error class; (2) programs that use one unsupported construct (typed declaration, any conversion, function definition/call, return, handler, field access, type assertion, and/or, built-in call): a compile-time error is required. distinct = distinct program texts",
 		Assumptions: []string{
 			"the evaluator is the reference the property names",
 			"open findings D23a-e fence off: non-ASCII strings, map insertion of a new key, range with step 0, repetition of nested arrays, mutation of a map while ranging over it; each is re-run by its probe",
